@@ -2,12 +2,8 @@
 
 use crate::proxy::authorization_rules::ComputedAuthorizationItem;
 
-/// C02's `compute`: ComputedAuthorizationItem::from_authorization_item (decided in unit authz; uninterpreted here, so every
-/// result holds for whatever that function computes)
-pub uninterp spec fn computed(item: AuthorizationItem) -> ComputedAuthorizationItem;
-pub open spec fn computed_opt(o: Option<AuthorizationItem>) -> Option<ComputedAuthorizationItem> {
-    match o { Some(i) => Some(computed(i)), None => None }
-}
+// `computed` / `computed_opt` (C02's compute, uninterpreted): text imported from contracts/actors/unit.py COMPUTED_SPEC (the unit that
+// proves what set_*_rules sends), emitted right before this file
 
 /// ABSTRACT KEY-KEEPER STATE S = (key, channel state, rule id per endpoint, computed rules per endpoint): the locals of the
 /// actor in key_keeper_wrapper.rs. Single writer: every mutating wrapper method is called only from loop_poll (census on
